@@ -174,6 +174,14 @@ def describe(case, impl, exc, r, extra=None):
     return d
 
 
+def same_answer(impl, rec):
+    """implementation's (columns, rows) against a recorded PySpark answer: same column list, same bag of rows"""
+    if impl is None:
+        return False
+    return list(impl[0]) == list(rec["cols"]) and sorted(map(repr, (tuple(r) for r in impl[1]))) == sorted(
+        map(repr, (tuple(r) for r in rec["rows"])))
+
+
 def size_of(case):
     return (len(case["steps"]), 0 if case.get("fin") is None else 1, 0 if case["data"] == "std" else 1,
             len(json.dumps(case)))
@@ -254,13 +262,19 @@ def run(ctx: core.Ctx):
         desc = describe(case, m["impl"], m["exc"], r)
         if rec is not None:
             desc["pyspark_3.5.9"] = rec
-        if srej or (rec is not None and "error" in rec):
+        # judge: PySpark's own recorded answer when this case is in the recording, the Coq Spark spec otherwise
+        if rec is not None:
+            n_rec_judged += 1
+            outside = "error" in rec
+            deviates = (not outside) and not same_answer(m["impl"], rec)
+        else:
+            outside = srej
+            deviates = (not outside) and not isp
+        if outside:
             n_spec_rejects += 1          # PySpark produces no DataFrame here: outside the property
-        elif not isp:
+        elif deviates:
             n_dev += 1
             sig = gen.signature(case, raised)
-            if rec is not None:
-                n_rec_judged += 1
             if sig not in best or size_of(case) < size_of(best[sig][0]):
                 best[sig] = (case, desc, it)
         elif not im:
@@ -287,7 +301,7 @@ def run(ctx: core.Ctx):
                    f"first: {dom_fail[0]['program']}", data=dom_fail[:5])
 
     # ---- spec conformance: the Coq Spark spec against PySpark 3.5.9's recorded column lists and rows
-    n_rec = n_rec_bad = n_rec_err = n_rec_err_spec_accepts = 0
+    n_rec = n_rec_bad = n_rec_err = n_rec_err_spec_accepts = n_rec_abstain = 0
     if recs:
         ritems, rmeta = [], []
         for r in recs:
@@ -309,14 +323,20 @@ def run(ctx: core.Ctx):
                 n_rec_err += 1
                 if v[6] != "1":
                     n_rec_err_spec_accepts += 1
-                    k = r["result"]["error"] + ": " + r["result"].get("text", "")[:60]
+                    import re as _re
+                    k = r["result"]["error"] + ": " + _re.sub(r"[#o]\d+L?", "#", r["result"].get("text", ""))[:60]
                     accepts[k] = accepts.get(k, 0) + 1
+            elif v[6] == "1":
+                n_rec_abstain += 1       # the spec rejects conservatively (self-join through DataFrame references, hidden columns)
             elif v[1] != "1":
                 n_rec_bad += 1
                 bad.append({"program": rd.case_str(r["case"]), "pyspark": r["result"], "verdict": v})
         if bad:
             ctx.broken("spec-conformance", f"{len(bad)} recorded PySpark answers differ from the Coq Spark spec; first: "
                        f"{bad[0]['program']}", data=bad[:5])
+        if accepts:
+            ctx.broken("spec-conformance:accepts-what-pyspark-rejects", f"{n_rec_err_spec_accepts} recorded programs that PySpark "
+                       f"rejects are accepted by the Coq Spark spec: {sorted(accepts)[:3]}")
         ctx.coverage["pyspark_rejections_the_spec_does_not_model"] = accepts
     else:
         ctx.broken("spec-conformance", "oracle/c02_pyspark.jsonl is missing")
@@ -337,6 +357,7 @@ def run(ctx: core.Ctx):
         "histogram_how_spelling": hist["how_spelling"],
         "pyspark_recordings_checked": n_rec, "pyspark_recordings_disagree": n_rec_bad,
         "pyspark_recordings_error": n_rec_err, "pyspark_error_but_spec_accepts": n_rec_err_spec_accepts,
+        "pyspark_ok_but_spec_abstains": n_rec_abstain,
     })
     ctx.assumptions += [
         "C02.Join.join is my definition of the SQL join of two bags under a 3-valued ON (validated against DuckDB by T3 and "
